@@ -34,6 +34,30 @@ theorem C06_lin (e : Env) (val : Val) (h : Feasible e val) (c0 : Rat) (ts : LinT
   simpa [Con.eval, add_comm] using this
 
 
+/-- **Quadratic expressions** (`ComputeBoundsAndType(QuadAndLinTerms)`, `ProductBounds` incl. the `x = y` square rule,
+`AddBoundsAndType`), for every box with **finite** bounds, every coefficient list, every mix of types.
+
+Partial: the full statement drops `hf : FinBox e`
+
+  theorem C06_quad (e val) (h : Feasible e val) (c0 ts qs) : ∃ pre, prepro e (.quad c0 ts qs) = .keep pre _ ∧ pre.Contains (eval …)
+
+What is missing is only `ProductBounds` on boxes with infinite bounds (the NaN-skipping `min_element`/`max_element` over
+corner products such as `0·∞`): everything else (`boundsQuadT_sound`, `addBounds_sound`, linear part, constant, narrowing)
+is proved for arbitrary `ER` bounds given soundness of `productBounds`.  Infinite boxes are covered by the correspondence
+and the sampling oracle only. -/
+theorem C06_quad_partial (e : Env) (val : Val) (h : Feasible e val) (hf : FinBox e) (c0 : Rat) (ts : LinT) (qs : QuadT) :
+    ∃ pre, prepro e (.quad c0 ts qs) = .keep pre (.quad c0 ts qs) ∧
+      pre.Contains (Con.eval tr trp val (.quad c0 ts qs)) := by
+  refine ⟨_, rfl, ?_⟩
+  have hq := boundsQuadT_sound e val h (productBounds_sound e val h hf) qs
+  have := fresh_narrow_sound _ _ (withConst_sound _ _ c0 (addBounds_sound _ _ _ _ (boundsLin_sound e val h ts) hq))
+  simpa [Con.eval, boundsQL, add_comm] using this
+
+/-- **`ProductBounds`** on finite boxes: corner products for `x ≠ y`, `[0 or min(lb²,ub²), max(lb²,ub²)]` for `x = y`. -/
+theorem C06_product_bounds (e : Env) (val : Val) (h : Feasible e val) (hf : FinBox e) (x y : Nat) :
+    lbW (productBounds e x y).1 (val x * val y) ∧ ubW (productBounds e x y).2 (val x * val y) :=
+  productBounds_sound e val h hf x y
+
 /-! ## abs -/
 
 /-- **abs, preprocessing level**: the alias `|x| = x` is taken only if `x ≥ 0` on the whole box, the redirection to
@@ -275,6 +299,12 @@ theorem C06_fix_equality (b : Pre) (body rhs : Rat) (hb : b.ContainsW body) (p :
         rw [this]; exact pre00
       · simp at hfix
 
+
+/-- **Conditional quadratic / linear equality fixed from bounds**: `FixEqualityResult` applied to the real body bounds. -/
+theorem C06_cond_eq_fix (e : Env) (val : Val) (h : Feasible e val) (rhs : Rat) (ts : LinT) (p : Pre)
+    (hfix : fixEqualityResult (boundsLin e ts) rhs preBool = some p) :
+    p.Contains (Con.eval tr trp val (.clin 0 rhs ts)) ∧ p.isConstant = true := by
+  simpa [Con.eval] using C06_fix_equality (boundsLin e ts) (linVal val ts) rhs (boundsLin_sound e val h ts) p hfix
 
 /-- **rounding of the right-hand side** of a conditional inequality whose body is integer-valued (`ceil` for `>=`/`<`,
 `floor` for `<=`/`>`): the comparison is unchanged at every integer body value — for every fractional or integer `rhs`. -/
